@@ -257,6 +257,26 @@ func main() {
 		}
 	}
 
+	// ---------------- the folding helper of rotate-copy, screw and rack: SawTooth on a dyadic grid ----------------
+	// documented: returns a value in [-period/2, period/2) congruent to x modulo the period; on this grid the
+	// arithmetic is exact, so the comparison is ==.  Half-period points (sector boundaries of RotateCopy, which the
+	// generic lattice of the tree comparison never hits) are all on the grid.
+	var sawPoints int64
+	for _, per := range []float64{0.25, 0.5, 1, 2, 4} { // powers of two: x/period and the products are exact
+		for i := -64; i <= 64; i++ {
+			x := float64(i) / 8
+			got := sdf.SawTooth(x, per)
+			want := x - per*math.Floor(x/per+0.5)
+			sawPoints++
+			if got != want || got < -per/2 || got >= per/2 {
+				side := "elsewhere"
+				if math.Mod(math.Abs(x), per) == per/2 {
+					side = "at-a-half-period-point"
+				}
+				c.Violation("SawTooth|not-the-representative-in-[-p/2,p/2)|"+side, fmt.Sprintf("SawTooth(%g, %g) = %g, want %g", x, per, got, want), map[string]any{"x": x, "period": per})
+			}
+		}
+	}
 	// ---------------- cache wrapper: all query histories (explicit-state BFS) ----------------
 	menu := []v2.Vec{{X: 0, Y: 0}, {X: math.Copysign(0, -1), Y: 0}, {X: 0.75, Y: 0.25}, {X: 0.75, Y: 0.25000000000000006}, {X: -3, Y: 7}}
 	var hist, states int64
